@@ -62,6 +62,10 @@ type opRec struct {
 	Res   []any  `json:"res"`
 	First int    `json:"first"`
 	Last  int    `json:"last"`
+
+	before, after string // canonical content of the key's three tiers when the operation made its first tier call / returned
+	ret           any    // the value handed to the caller by Get (by reference)
+	retCopy       string // its canonical content at that moment
 }
 
 type sched struct {
@@ -82,6 +86,11 @@ type sched struct {
 	over   bool
 	keys   []string
 	wbRead []int // step of the persistent read that fed the j-th write-back
+
+	seq     bool // nodes mode: ungated sequential history; only write-back goroutines are tracked
+	main    uint64
+	wg      sync.WaitGroup
+	onFirst func(who int, r *opRec) // sched mode: called when an operation makes its first tier call (state still untouched)
 }
 
 func (s *sched) keyIndex(key string) int {
@@ -99,6 +108,12 @@ func (s *sched) enter(tier int, method, key string) (int, bool) {
 		return -1, false
 	}
 	id := goid()
+	if s.seq {
+		if id == s.main {
+			return -1, false
+		}
+		return -2, false // the asynchronous write-back
+	}
 	s.mu.Lock()
 	if s.free {
 		s.mu.Unlock()
@@ -130,6 +145,9 @@ func (s *sched) enter(tier int, method, key string) (int, bool) {
 		if r := s.cur[who]; r != nil {
 			if r.First < 0 {
 				r.First = s.step
+				if s.onFirst != nil {
+					s.onFirst(who, r)
+				}
 			}
 			r.Last = s.step
 			ki, opn = r.K, r.Op
@@ -140,6 +158,10 @@ func (s *sched) enter(tier int, method, key string) (int, bool) {
 }
 
 func (s *sched) leave(who int) {
+	if s != nil && who == -2 {
+		s.wg.Done()
+		return
+	}
 	if s == nil || who < 0 {
 		return
 	}
@@ -165,6 +187,14 @@ type cacheDouble struct {
 	under *memory.Storage
 	tier  int
 	s     *sched
+	raw   bool // hand list values through BY REFERENCE, exactly like the real memory.Storage tier (aliasing mode)
+}
+
+func (c *cacheDouble) cp(v any) any {
+	if c.raw {
+		return v
+	}
+	return cp(v)
 }
 
 func (c *cacheDouble) Set(key string, v any, ttl time.Duration) error {
@@ -173,7 +203,7 @@ func (c *cacheDouble) Set(key string, v any, ttl time.Duration) error {
 	if f {
 		return errInjected
 	}
-	return c.under.Set(key, cp(v), ttl)
+	return c.under.Set(key, c.cp(v), ttl)
 }
 func (c *cacheDouble) Get(key string) (any, error) {
 	who, f := c.s.enter(c.tier, "Get", key)
@@ -182,7 +212,7 @@ func (c *cacheDouble) Get(key string) (any, error) {
 		return nil, errInjected
 	}
 	v, err := c.under.Get(key)
-	return cp(v), err
+	return c.cp(v), err
 }
 func (c *cacheDouble) Delete(key string) error {
 	who, f := c.s.enter(c.tier, "Delete", key)
@@ -207,7 +237,7 @@ func (c *cacheDouble) SetNX(key string, v any, ttl time.Duration) (bool, error) 
 	if f {
 		return false, errInjected
 	}
-	return c.under.SetNX(key, cp(v), ttl)
+	return c.under.SetNX(key, c.cp(v), ttl)
 }
 func (c *cacheDouble) Incr(key string) (int64, error) { return c.IncrBy(key, 1) }
 func (c *cacheDouble) IncrBy(key string, d int64) (int64, error) {
@@ -250,6 +280,9 @@ func (p *persDouble) Get(key string) (any, error) {
 	}
 	if p.s != nil {
 		p.s.mu.Lock()
+		if p.s.seq {
+			p.s.wg.Add(1)
+		}
 		p.s.expWb++ // hybrid.Get / getSharedPersistent spawn one write-back per successful persistent read
 		p.s.wbRead = append(p.s.wbRead, p.s.step)
 		p.s.mu.Unlock()
@@ -361,6 +394,9 @@ type caseIn struct {
 	Sched   []int    `json:"sched"`
 	MaxWb   int      `json:"max_wb"`
 	Reader  bool     `json:"reader"` // the last caller only runs once everything else (write-backs included) has quiesced
+	Raw     bool     `json:"raw"`    // cache tiers hand lists through by reference (the real memory.Storage behaviour)
+	Nodes   int      `json:"nodes"`  // nodes mode: number of hybrid instances with private local caches
+	Steps   []stepIn `json:"steps"`  // nodes mode: sequential cross-node history (node -1 = a fresh cold-cache node)
 	N       int      `json:"n"`
 	M       int      `json:"m"`
 	Kind    string   `json:"kind"`
@@ -402,14 +438,14 @@ func newRig(c caseIn, s *sched) *rig {
 	var sc types.CacheStorage
 	if c.Shared {
 		r.shared = memory.New(ctx)
-		sc = &cacheDouble{under: r.shared, tier: tShared, s: s}
+		sc = &cacheDouble{under: r.shared, tier: tShared, s: s, raw: c.Raw}
 	}
 	var ps types.PersistentStorage
 	if c.Pers {
 		r.pers = &persDouble{m: map[string]any{}, s: s}
 		ps = r.pers
 	}
-	r.h = hybrid.NewWithSharedCache(ctx, &cacheDouble{under: r.local, tier: tLocal, s: s}, sc, ps, cfg)
+	r.h = hybrid.NewWithSharedCache(ctx, &cacheDouble{under: r.local, tier: tLocal, s: s, raw: c.Raw}, sc, ps, cfg)
 	return r
 }
 
@@ -440,6 +476,28 @@ func (r *rig) seed(c caseIn) {
 			}
 		}
 	}
+}
+
+// snapKey: canonical content of one key in the three tiers (read directly, deep)
+func (r *rig) snapKey(c caseIn, k int) string {
+	key := c.Keys[k]
+	var o [3]any
+	if v, err := r.local.Get(key); err == nil {
+		o[0] = encVal(v)
+	}
+	if r.shared != nil {
+		if v, err := r.shared.Get(key); err == nil {
+			o[1] = encVal(v)
+		}
+	}
+	if r.pers != nil {
+		r.pers.mu.Lock()
+		if v, ok := r.pers.m[key]; ok {
+			o[2] = encVal(v)
+		}
+		r.pers.mu.Unlock()
+	}
+	return canon(o)
 }
 
 func (r *rig) snapshot(c caseIn) (out [3][][]any) {
@@ -475,6 +533,11 @@ func resErr(err error) []any {
 }
 
 func doOp(h *hybrid.Storage, keys []string, op opIn) []any {
+	res, _ := doOpV(h, keys, op)
+	return res
+}
+
+func doOpV(h *hybrid.Storage, keys []string, op opIn) ([]any, any) {
 	key := keys[op.K]
 	var val any = sval(op.V)
 	if op.L != nil {
@@ -482,53 +545,53 @@ func doOp(h *hybrid.Storage, keys []string, op opIn) []any {
 	}
 	switch op.Op {
 	case "set":
-		return resErr(h.Set(key, val, 0))
+		return resErr(h.Set(key, val, 0)), nil
 	case "get":
 		v, err := h.Get(key)
 		if err != nil {
-			return resErr(err)
+			return resErr(err), nil
 		}
-		return []any{3, encVal(v)}
+		return []any{3, encVal(v)}, v
 	case "del":
-		return resErr(h.Delete(key))
+		return resErr(h.Delete(key)), nil
 	case "exists":
 		b, err := h.Exists(key)
 		if err != nil {
-			return resErr(err)
+			return resErr(err), nil
 		}
-		return []any{4, b}
+		return []any{4, b}, nil
 	case "append":
-		return resErr(h.AppendToList(key, fmt.Sprintf("e%d", op.V)))
+		return resErr(h.AppendToList(key, fmt.Sprintf("e%d", op.V))), nil
 	case "remove":
-		return resErr(h.RemoveFromList(key, fmt.Sprintf("e%d", op.V)))
+		return resErr(h.RemoveFromList(key, fmt.Sprintf("e%d", op.V))), nil
 	case "incr":
 		n, err := h.Incr(key)
 		if err != nil {
-			return resErr(err)
+			return resErr(err), nil
 		}
-		return []any{5, int(n)}
+		return []any{5, int(n)}, nil
 	case "setnx":
 		ok, err := h.SetNX(key, val, 0)
 		if err != nil {
-			return resErr(err)
+			return resErr(err), nil
 		}
-		return []any{4, ok}
+		return []any{4, ok}, nil
 	// operations outside the model: only their tier routing is judged
 	case "incrby":
 		n, err := h.IncrBy(key, int64(op.V))
 		if err != nil {
-			return resErr(err)
+			return resErr(err), nil
 		}
-		return []any{5, int(n)}
+		return []any{5, int(n)}, nil
 	case "sethash":
-		return resErr(h.SetHash(key, "f", val))
+		return resErr(h.SetHash(key, "f", val)), nil
 	case "gethash":
 		_, err := h.GetHash(key, "f")
-		return resErr(err)
+		return resErr(err), nil
 	case "delhash":
-		return resErr(h.DeleteHash(key, "f"))
+		return resErr(h.DeleteHash(key, "f")), nil
 	case "setexp":
-		return resErr(h.SetExpiration(key, time.Hour))
+		return resErr(h.SetExpiration(key, time.Hour)), nil
 	}
 	panic("unknown op " + op.Op)
 }
@@ -558,6 +621,7 @@ func runSched(c caseIn) *caseOut {
 	r := newRig(c, s)
 	defer r.cancel()
 	r.seed(c)
+	s.onFirst = func(who int, rec *opRec) { rec.before = r.snapKey(c, rec.K) }
 	for i := range c.Keys {
 		out.Cats = append(out.Cats, hybrid.VerifCategory(r.h, c.Keys[i]))
 		out.CacheSh = append(out.CacheSh, hybrid.VerifCacheForKeyIsShared(r.h, c.Keys[i]))
@@ -603,7 +667,11 @@ func runSched(c caseIn) *caseOut {
 				s.mu.Lock()
 				s.cur[i] = rec
 				s.mu.Unlock()
-				res := doOp(r.h, c.Keys, op)
+				res, rv := doOpV(r.h, c.Keys, op)
+				if l, ok := rv.([]interface{}); ok {
+					rec.ret, rec.retCopy = l, canon(encVal(l))
+				}
+				rec.after = r.snapKey(c, op.K)
 				s.mu.Lock()
 				rec.Res = res
 				s.cur[i] = nil
@@ -768,7 +836,96 @@ func runSched(c caseIn) *caseOut {
 		}
 		out.Viol = append(out.Viol, listPred(c, k, all, got)...)
 	}
+	out.Viol = append(out.Viol, aliasPreds(c, out, all, kind)...)
 	return out
+}
+
+// aliasPreds: (a) a list operation that returns an error leaves the stored list (all three tiers) exactly as it found it,
+// provided nobody else touched the key meanwhile; (b) a value handed to a caller by Get never changes afterwards;
+// (c) every list ever read or left in a tier of a list key is duplicate-free and made of members somebody put there.
+func aliasPreds(c caseIn, out *caseOut, all []*opRec, kind func(int) string) []viol {
+	var vs []viol
+	n := len(c.Threads)
+	for who, lg := range out.Logs {
+		for _, o := range lg {
+			if (o.Op == "append" || o.Op == "remove") && o.First >= 0 && int(toInt(o.Res[0])) == 1 && o.before != "" && o.before != o.after {
+				foreign := false
+				for _, a := range out.Acc {
+					if a.KI == o.K && a.Who != who && a.Step >= o.First && a.Step <= o.Last+1 {
+						foreign = true
+					}
+				}
+				_ = n
+				if !foreign {
+					vs = append(vs, viol{Kind: "failed-list-op-changed-state", K: o.K, Msg: fmt.Sprintf("%s(e%d) on %q returned an error but the stored list changed from %s to %s (tiers local/shared/persistent) although nobody else touched the key",
+						o.Op, o.V, c.Keys[o.K], o.before, o.after)})
+				}
+			}
+			if o.ret != nil && canon(encVal(o.ret)) != o.retCopy {
+				vs = append(vs, viol{Kind: "returned-value-mutated", K: o.K, Msg: fmt.Sprintf("the list returned by Get(%q) at step %d was %s and later read %s: a value already handed to a caller changed underneath it",
+					c.Keys[o.K], o.Last, o.retCopy, canon(encVal(o.ret)))})
+			}
+		}
+	}
+	for k := range c.Keys {
+		if kind(k) != "l" {
+			continue
+		}
+		legit := map[int]bool{}
+		for _, in := range c.Init {
+			if in.K == k && in.L != nil {
+				for _, e := range *in.L {
+					legit[e] = true
+				}
+			}
+		}
+		clean := true
+		for _, o := range all {
+			if o.K != k {
+				continue
+			}
+			switch o.Op {
+			case "append":
+				legit[o.V] = true
+			case "set", "setnx":
+				clean = false
+			}
+		}
+		if !clean {
+			continue
+		}
+		check := func(where string, e any) {
+			ev, ok := e.([]any)
+			if !ok || len(ev) != 2 || toInt(ev[0]) != 1 {
+				return
+			}
+			l, ok := ev[1].([]int)
+			if !ok {
+				return
+			}
+			seen := map[int]bool{}
+			for _, x := range l {
+				if seen[x] || !legit[x] {
+					vs = append(vs, viol{Kind: "list-corrupt", K: k, Msg: fmt.Sprintf("%s of %q is %v: a list no operation ever wrote (duplicate or foreign member e%d)", where, c.Keys[k], l, x)})
+					return
+				}
+				seen[x] = true
+			}
+		}
+		for _, o := range all {
+			if o.K == k && o.Op == "get" && int(toInt(o.Res[0])) == 3 {
+				check(fmt.Sprintf("the list returned by Get at step %d", o.Last), o.Res[1])
+			}
+		}
+		for t := 0; t < 3; t++ {
+			for _, e := range out.Final[t] {
+				if int(toInt(e[0])) == k {
+					check(fmt.Sprintf("the final content of tier %d", t), e[1])
+				}
+			}
+		}
+	}
+	return vs
 }
 
 func canon(x any) string {
@@ -1091,6 +1248,8 @@ func runCase(raw json.RawMessage) interface{} {
 		return runCat(c)
 	case "stress":
 		return runStress(c)
+	case "nodes":
+		return runNodes(c)
 	}
 	return runSched(c)
 }
